@@ -1,147 +1,430 @@
+//! Sequential contract model of `tokio::sync::{mpsc, oneshot}`.
+//!
+//! Single-threaded FIFO rings (inline arrays, no heap in the hot path) with exact
+//! capacity / closed / sender-count semantics and real waker registration: a receiver that
+//! finds the queue empty parks its `Waker` and the next send (or the last sender going away)
+//! wakes it; a bounded `send().await` that finds the queue full parks the sender's `Waker` and
+//! the next receive (or `close`) wakes it.
+//!
+//! Harness bound: at most `QCAP` queued items per channel; exceeding it is reported as
+//! "BOUND:" (inconclusive), never silently dropped.
 pub mod mpsc {
     use std::cell::UnsafeCell;
-    const QCAP: usize = 6;
-    struct Ring<T> { slots: [Option<T>; QCAP], head: usize, len: usize }
+    use std::sync::Arc;
+    use std::task::{Context, Poll, Waker};
+
+    pub const QCAP: usize = 6;
+    struct Ring<T> {
+        slots: [Option<T>; QCAP],
+        head: usize,
+        len: usize,
+    }
     impl<T> Ring<T> {
-        fn new() -> Self { Self { slots: [const { None }; QCAP], head: 0, len: 0 } }
-        fn len(&self) -> usize { self.len }
-        fn is_empty(&self) -> bool { self.len == 0 }
+        fn new() -> Self {
+            Self { slots: [const { None }; QCAP], head: 0, len: 0 }
+        }
         fn push(&mut self, v: T) {
-            assert!(self.len < QCAP, "harness queue bound exceeded");
-            let mut i = self.head + self.len; if i >= QCAP { i -= QCAP; }
-            core::mem::forget(core::mem::replace(&mut self.slots[i], Some(v))); self.len += 1;
+            assert!(self.len < QCAP, "BOUND: harness queue bound (QCAP) exceeded in the tokio mpsc model");
+            let mut i = self.head + self.len;
+            if i >= QCAP {
+                i -= QCAP;
+            }
+            core::mem::forget(core::mem::replace(&mut self.slots[i], Some(v)));
+            self.len += 1;
         }
         fn pop(&mut self) -> Option<T> {
-            if self.len == 0 { return None; }
+            if self.len == 0 {
+                return None;
+            }
             let v = self.slots[self.head].take();
-            self.head += 1; if self.head >= QCAP { self.head = 0; }
+            self.head += 1;
+            if self.head >= QCAP {
+                self.head = 0;
+            }
             self.len -= 1;
             v
         }
-        fn clear(&mut self) { let mut i = 0; while i < QCAP { self.slots[i] = None; i += 1; } self.len = 0; self.head = 0; }
+        fn clear(&mut self) {
+            let mut i = 0;
+            while i < QCAP {
+                self.slots[i] = None;
+                i += 1;
+            }
+            self.len = 0;
+            self.head = 0;
+        }
     }
-    type VecDeque<T> = Ring<T>;
-    use std::sync::Arc;
-    use std::task::{Context, Poll, Waker};
     pub mod error {
         #[derive(Debug, PartialEq, Eq, Clone, Copy)]
-        pub enum TrySendError<T> { Full(T), Closed(T) }
-        impl<T> core::fmt::Display for TrySendError<T> { fn fmt(&self, _f: &mut core::fmt::Formatter<'_>) -> core::fmt::Result { Ok(()) } }
+        pub enum TrySendError<T> {
+            Full(T),
+            Closed(T),
+        }
+        impl<T> core::fmt::Display for TrySendError<T> {
+            fn fmt(&self, _f: &mut core::fmt::Formatter<'_>) -> core::fmt::Result {
+                Ok(())
+            }
+        }
         #[derive(Debug, PartialEq, Eq, Clone, Copy)]
         pub struct SendError<T>(pub T);
-        impl<T> core::fmt::Display for SendError<T> { fn fmt(&self, _f: &mut core::fmt::Formatter<'_>) -> core::fmt::Result { Ok(()) } }
+        impl<T> core::fmt::Display for SendError<T> {
+            fn fmt(&self, _f: &mut core::fmt::Formatter<'_>) -> core::fmt::Result {
+                Ok(())
+            }
+        }
         #[derive(Debug, PartialEq, Eq, Clone, Copy)]
-        pub enum TryRecvError { Empty, Disconnected }
+        pub enum TryRecvError {
+            Empty,
+            Disconnected,
+        }
     }
     use error::*;
-    struct Chan<T> { q: VecDeque<T>, cap: usize, rx_closed: bool, rx_dropped: bool, senders: usize, rx_waker: Option<Waker>, tx_wakers: usize }
+    struct Chan<T> {
+        q: Ring<T>,
+        cap: usize,
+        rx_closed: bool,
+        senders: usize,
+        rx_waker: Option<Waker>,
+        tx_waker: Option<Waker>,
+    }
     struct Shared<T>(UnsafeCell<Chan<T>>);
     unsafe impl<T: Send> Send for Shared<T> {}
     unsafe impl<T: Send> Sync for Shared<T> {}
-    impl<T> Shared<T> { #[allow(clippy::mut_from_ref)] fn get(&self) -> &mut Chan<T> { unsafe { &mut *self.0.get() } } }
-    fn new<T>(cap: usize) -> Arc<Shared<T>> { Arc::new(Shared(UnsafeCell::new(Chan { q: Ring::new(), cap, rx_closed: false, rx_dropped: false, senders: 1, rx_waker: None, tx_wakers: 0 }))) }
+    impl<T> Shared<T> {
+        #[allow(clippy::mut_from_ref)]
+        fn get(&self) -> &mut Chan<T> {
+            unsafe { &mut *self.0.get() }
+        }
+    }
+    fn new<T>(cap: usize) -> Arc<Shared<T>> {
+        Arc::new(Shared(UnsafeCell::new(Chan { q: Ring::new(), cap, rx_closed: false, senders: 1, rx_waker: None, tx_waker: None })))
+    }
     pub struct Sender<T>(Arc<Shared<T>>);
     pub struct Receiver<T>(Arc<Shared<T>>);
     pub struct UnboundedSender<T>(Arc<Shared<T>>);
     pub struct UnboundedReceiver<T>(Arc<Shared<T>>);
-    impl<T> core::fmt::Debug for Sender<T> { fn fmt(&self, f: &mut core::fmt::Formatter<'_>) -> core::fmt::Result { f.write_str("Sender") } }
-    impl<T> core::fmt::Debug for Receiver<T> { fn fmt(&self, f: &mut core::fmt::Formatter<'_>) -> core::fmt::Result { f.write_str("Receiver") } }
-    impl<T> core::fmt::Debug for UnboundedSender<T> { fn fmt(&self, f: &mut core::fmt::Formatter<'_>) -> core::fmt::Result { f.write_str("UnboundedSender") } }
-    impl<T> core::fmt::Debug for UnboundedReceiver<T> { fn fmt(&self, f: &mut core::fmt::Formatter<'_>) -> core::fmt::Result { f.write_str("UnboundedReceiver") } }
-    pub fn channel<T>(cap: usize) -> (Sender<T>, Receiver<T>) { assert!(cap > 0, "mpsc bounded channel requires buffer > 0"); let s = new(cap); (Sender(s.clone()), Receiver(s)) }
-    pub fn unbounded_channel<T>() -> (UnboundedSender<T>, UnboundedReceiver<T>) { let s = new(usize::MAX); (UnboundedSender(s.clone()), UnboundedReceiver(s)) }
+    macro_rules! dbg_impl {
+        ($t:ident) => {
+            impl<T> core::fmt::Debug for $t<T> {
+                fn fmt(&self, f: &mut core::fmt::Formatter<'_>) -> core::fmt::Result {
+                    f.write_str(stringify!($t))
+                }
+            }
+        };
+    }
+    dbg_impl!(Sender);
+    dbg_impl!(Receiver);
+    dbg_impl!(UnboundedSender);
+    dbg_impl!(UnboundedReceiver);
+    pub fn channel<T>(cap: usize) -> (Sender<T>, Receiver<T>) {
+        assert!(cap > 0, "mpsc bounded channel requires buffer > 0");
+        let s = new(cap);
+        (Sender(s.clone()), Receiver(s))
+    }
+    pub fn unbounded_channel<T>() -> (UnboundedSender<T>, UnboundedReceiver<T>) {
+        let s = new(usize::MAX);
+        (UnboundedSender(s.clone()), UnboundedReceiver(s))
+    }
     fn try_send<T>(c: &mut Chan<T>, v: T) -> Result<(), TrySendError<T>> {
-        if c.rx_closed { return Err(TrySendError::Closed(v)); }
-        if c.q.len() >= c.cap { return Err(TrySendError::Full(v)); }
+        if c.rx_closed {
+            return Err(TrySendError::Closed(v));
+        }
+        if c.q.len >= c.cap {
+            return Err(TrySendError::Full(v));
+        }
         c.q.push(v);
-        if let Some(w) = c.rx_waker.take() { w.wake(); }
+        if let Some(w) = c.rx_waker.take() {
+            w.wake();
+        }
         Ok(())
     }
     fn poll_recv<T>(c: &mut Chan<T>, cx: &mut Context<'_>) -> Poll<Option<T>> {
-        if let Some(v) = c.q.pop() { return Poll::Ready(Some(v)); }
-        if c.rx_closed || c.senders == 0 { return Poll::Ready(None); }
+        if let Some(v) = c.q.pop() {
+            if let Some(w) = c.tx_waker.take() {
+                w.wake();
+            }
+            return Poll::Ready(Some(v));
+        }
+        if c.rx_closed || c.senders == 0 {
+            return Poll::Ready(None);
+        }
         c.rx_waker = Some(cx.waker().clone());
         Poll::Pending
     }
-    impl<T> Sender<T> {
-        pub fn try_send(&self, v: T) -> Result<(), TrySendError<T>> { try_send(self.0.get(), v) }
-        pub async fn send(&self, v: T) -> Result<(), SendError<T>> {
-            let mut slot = Some(v);
-            core::future::poll_fn(|_cx| {
-                let c = self.0.get();
-                match try_send(c, slot.take().expect("polled after completion")) {
-                    Ok(()) => Poll::Ready(Ok(())),
-                    Err(TrySendError::Closed(v)) => Poll::Ready(Err(SendError(v))),
-                    Err(TrySendError::Full(v)) => { slot = Some(v); c.tx_wakers += 1; Poll::Pending }
+    fn try_recv<T>(c: &mut Chan<T>) -> Result<T, TryRecvError> {
+        match c.q.pop() {
+            Some(v) => {
+                if let Some(w) = c.tx_waker.take() {
+                    w.wake();
                 }
-            }).await
+                Ok(v)
+            }
+            None if c.rx_closed || c.senders == 0 => Err(TryRecvError::Disconnected),
+            None => Err(TryRecvError::Empty),
         }
-        pub fn strong_count(&self) -> usize { self.0.get().senders }
-        pub fn is_closed(&self) -> bool { self.0.get().rx_closed }
     }
-    impl<T> Clone for Sender<T> { fn clone(&self) -> Self { self.0.get().senders += 1; Sender(self.0.clone()) } }
-    impl<T> Drop for Sender<T> { fn drop(&mut self) { let c = self.0.get(); c.senders -= 1; if c.senders == 0 { if let Some(w) = c.rx_waker.take() { w.wake(); } } } }
+    fn close<T>(c: &mut Chan<T>) {
+        c.rx_closed = true;
+        if let Some(w) = c.tx_waker.take() {
+            w.wake();
+        }
+    }
+    fn drop_sender<T>(c: &mut Chan<T>) {
+        c.senders -= 1;
+        if c.senders == 0 {
+            if let Some(w) = c.rx_waker.take() {
+                w.wake();
+            }
+        }
+    }
+    impl<T> Sender<T> {
+        pub fn try_send(&self, v: T) -> Result<(), TrySendError<T>> {
+            try_send(self.0.get(), v)
+        }
+        /// `async fn send` of tokio, as a hand-written future: the capacity / closed checks come
+        /// first and the value is moved exactly once (a generated coroutine would shuffle the
+        /// value between its state and a closure, which the symbolic execution pays dearly for).
+        pub fn send(&self, v: T) -> SendFut<'_, T> {
+            SendFut { tx: self, v: Some(v) }
+        }
+        pub fn strong_count(&self) -> usize {
+            self.0.get().senders
+        }
+        pub fn is_closed(&self) -> bool {
+            self.0.get().rx_closed
+        }
+        pub fn capacity(&self) -> usize {
+            let c = self.0.get();
+            c.cap - c.q.len
+        }
+        pub fn max_capacity(&self) -> usize {
+            self.0.get().cap
+        }
+    }
+    pub struct SendFut<'a, T> {
+        tx: &'a Sender<T>,
+        v: Option<T>,
+    }
+    impl<T> Unpin for SendFut<'_, T> {}
+    impl<T> std::future::Future for SendFut<'_, T> {
+        type Output = Result<(), SendError<T>>;
+        fn poll(self: std::pin::Pin<&mut Self>, cx: &mut Context<'_>) -> Poll<Self::Output> {
+            let me = self.get_mut();
+            let c = me.tx.0.get();
+            if c.rx_closed {
+                return Poll::Ready(Err(SendError(me.v.take().expect("polled after completion"))));
+            }
+            if c.q.len >= c.cap {
+                c.tx_waker = Some(cx.waker().clone());
+                return Poll::Pending;
+            }
+            c.q.push(me.v.take().expect("polled after completion"));
+            if let Some(w) = c.rx_waker.take() {
+                w.wake();
+            }
+            Poll::Ready(Ok(()))
+        }
+    }
+    impl<T> Clone for Sender<T> {
+        fn clone(&self) -> Self {
+            self.0.get().senders += 1;
+            Sender(self.0.clone())
+        }
+    }
+    impl<T> Drop for Sender<T> {
+        fn drop(&mut self) {
+            drop_sender(self.0.get());
+        }
+    }
     impl<T> UnboundedSender<T> {
-        pub fn send(&self, v: T) -> Result<(), SendError<T>> { match try_send(self.0.get(), v) { Ok(()) => Ok(()), Err(TrySendError::Closed(v)) | Err(TrySendError::Full(v)) => Err(SendError(v)) } }
-        pub fn is_closed(&self) -> bool { self.0.get().rx_closed }
+        pub fn send(&self, v: T) -> Result<(), SendError<T>> {
+            match try_send(self.0.get(), v) {
+                Ok(()) => Ok(()),
+                Err(TrySendError::Closed(v)) | Err(TrySendError::Full(v)) => Err(SendError(v)),
+            }
+        }
+        pub fn is_closed(&self) -> bool {
+            self.0.get().rx_closed
+        }
     }
-    impl<T> Clone for UnboundedSender<T> { fn clone(&self) -> Self { self.0.get().senders += 1; UnboundedSender(self.0.clone()) } }
-    impl<T> Drop for UnboundedSender<T> { fn drop(&mut self) { let c = self.0.get(); c.senders -= 1; if c.senders == 0 { if let Some(w) = c.rx_waker.take() { w.wake(); } } } }
+    impl<T> Clone for UnboundedSender<T> {
+        fn clone(&self) -> Self {
+            self.0.get().senders += 1;
+            UnboundedSender(self.0.clone())
+        }
+    }
+    impl<T> Drop for UnboundedSender<T> {
+        fn drop(&mut self) {
+            drop_sender(self.0.get());
+        }
+    }
     impl<T> Receiver<T> {
-        pub fn poll_recv(&mut self, cx: &mut Context<'_>) -> Poll<Option<T>> { poll_recv(self.0.get(), cx) }
-        pub async fn recv(&mut self) -> Option<T> { core::future::poll_fn(|cx| self.poll_recv(cx)).await }
-        pub fn try_recv(&mut self) -> Result<T, TryRecvError> { let c = self.0.get(); match c.q.pop() { Some(v) => Ok(v), None if c.rx_closed || c.senders == 0 => Err(TryRecvError::Disconnected), None => Err(TryRecvError::Empty) } }
-        pub fn close(&mut self) { self.0.get().rx_closed = true; }
-        pub fn len(&self) -> usize { self.0.get().q.len() }
+        pub fn poll_recv(&mut self, cx: &mut Context<'_>) -> Poll<Option<T>> {
+            poll_recv(self.0.get(), cx)
+        }
+        pub async fn recv(&mut self) -> Option<T> {
+            core::future::poll_fn(|cx| self.poll_recv(cx)).await
+        }
+        pub fn try_recv(&mut self) -> Result<T, TryRecvError> {
+            try_recv(self.0.get())
+        }
+        pub fn close(&mut self) {
+            close(self.0.get());
+        }
+        pub fn len(&self) -> usize {
+            self.0.get().q.len
+        }
+        pub fn is_empty(&self) -> bool {
+            self.0.get().q.len == 0
+        }
     }
-    impl<T> Drop for Receiver<T> { fn drop(&mut self) { let c = self.0.get(); c.rx_closed = true; c.rx_dropped = true; c.q.clear(); } }
+    impl<T> Drop for Receiver<T> {
+        fn drop(&mut self) {
+            let c = self.0.get();
+            close(c);
+            c.q.clear();
+        }
+    }
     impl<T> UnboundedReceiver<T> {
-        pub fn poll_recv(&mut self, cx: &mut Context<'_>) -> Poll<Option<T>> { poll_recv(self.0.get(), cx) }
-        pub async fn recv(&mut self) -> Option<T> { core::future::poll_fn(|cx| self.poll_recv(cx)).await }
-        pub fn try_recv(&mut self) -> Result<T, TryRecvError> { let c = self.0.get(); match c.q.pop() { Some(v) => Ok(v), None if c.rx_closed || c.senders == 0 => Err(TryRecvError::Disconnected), None => Err(TryRecvError::Empty) } }
-        pub fn close(&mut self) { self.0.get().rx_closed = true; }
-        pub fn len(&self) -> usize { self.0.get().q.len() }
+        pub fn poll_recv(&mut self, cx: &mut Context<'_>) -> Poll<Option<T>> {
+            poll_recv(self.0.get(), cx)
+        }
+        pub async fn recv(&mut self) -> Option<T> {
+            core::future::poll_fn(|cx| self.poll_recv(cx)).await
+        }
+        pub fn try_recv(&mut self) -> Result<T, TryRecvError> {
+            try_recv(self.0.get())
+        }
+        pub fn close(&mut self) {
+            close(self.0.get());
+        }
+        pub fn len(&self) -> usize {
+            self.0.get().q.len
+        }
+        pub fn is_empty(&self) -> bool {
+            self.0.get().q.len == 0
+        }
     }
-    impl<T> Drop for UnboundedReceiver<T> { fn drop(&mut self) { let c = self.0.get(); c.rx_closed = true; c.rx_dropped = true; c.q.clear(); } }
+    impl<T> Drop for UnboundedReceiver<T> {
+        fn drop(&mut self) {
+            let c = self.0.get();
+            close(c);
+            c.q.clear();
+        }
+    }
 }
+
 pub mod oneshot {
     use std::cell::UnsafeCell;
     use std::future::Future;
     use std::pin::Pin;
     use std::sync::Arc;
     use std::task::{Context, Poll, Waker};
-    pub mod error { #[derive(Debug, PartialEq, Eq, Clone, Copy)] pub struct RecvError(pub(super) ()); impl core::fmt::Display for RecvError { fn fmt(&self, _f: &mut core::fmt::Formatter<'_>) -> core::fmt::Result { Ok(()) } } impl std::error::Error for RecvError {} }
-    struct Inner<T> { v: Option<T>, tx_dropped: bool, rx_dropped: bool, waker: Option<Waker> }
+    pub mod error {
+        #[derive(Debug, PartialEq, Eq, Clone, Copy)]
+        pub struct RecvError(pub(super) ());
+        impl core::fmt::Display for RecvError {
+            fn fmt(&self, _f: &mut core::fmt::Formatter<'_>) -> core::fmt::Result {
+                Ok(())
+            }
+        }
+        impl std::error::Error for RecvError {}
+        #[derive(Debug, PartialEq, Eq, Clone, Copy)]
+        pub enum TryRecvError {
+            Empty,
+            Closed,
+        }
+    }
+    struct Inner<T> {
+        v: Option<T>,
+        tx_dropped: bool,
+        rx_dropped: bool,
+        waker: Option<Waker>,
+    }
     struct Shared<T>(UnsafeCell<Inner<T>>);
     unsafe impl<T: Send> Send for Shared<T> {}
     unsafe impl<T: Send> Sync for Shared<T> {}
-    impl<T> Shared<T> { #[allow(clippy::mut_from_ref)] fn get(&self) -> &mut Inner<T> { unsafe { &mut *self.0.get() } } }
+    impl<T> Shared<T> {
+        #[allow(clippy::mut_from_ref)]
+        fn get(&self) -> &mut Inner<T> {
+            unsafe { &mut *self.0.get() }
+        }
+    }
     pub struct Sender<T>(Option<Arc<Shared<T>>>);
     pub struct Receiver<T>(Arc<Shared<T>>);
-    impl<T> core::fmt::Debug for Sender<T> { fn fmt(&self, f: &mut core::fmt::Formatter<'_>) -> core::fmt::Result { f.write_str("oneshot::Sender") } }
-    impl<T> core::fmt::Debug for Receiver<T> { fn fmt(&self, f: &mut core::fmt::Formatter<'_>) -> core::fmt::Result { f.write_str("oneshot::Receiver") } }
-    pub fn channel<T>() -> (Sender<T>, Receiver<T>) { let s = Arc::new(Shared(UnsafeCell::new(Inner { v: None, tx_dropped: false, rx_dropped: false, waker: None }))); (Sender(Some(s.clone())), Receiver(s)) }
+    impl<T> core::fmt::Debug for Sender<T> {
+        fn fmt(&self, f: &mut core::fmt::Formatter<'_>) -> core::fmt::Result {
+            f.write_str("oneshot::Sender")
+        }
+    }
+    impl<T> core::fmt::Debug for Receiver<T> {
+        fn fmt(&self, f: &mut core::fmt::Formatter<'_>) -> core::fmt::Result {
+            f.write_str("oneshot::Receiver")
+        }
+    }
+    pub fn channel<T>() -> (Sender<T>, Receiver<T>) {
+        let s = Arc::new(Shared(UnsafeCell::new(Inner { v: None, tx_dropped: false, rx_dropped: false, waker: None })));
+        (Sender(Some(s.clone())), Receiver(s))
+    }
     impl<T> Sender<T> {
         pub fn send(mut self, v: T) -> Result<(), T> {
             let s = self.0.take().expect("sender present");
             let i = s.get();
-            if i.rx_dropped { return Err(v); }
+            if i.rx_dropped {
+                return Err(v);
+            }
             i.v = Some(v);
-            if let Some(w) = i.waker.take() { w.wake(); }
+            if let Some(w) = i.waker.take() {
+                w.wake();
+            }
             Ok(())
         }
-        pub fn is_closed(&self) -> bool { self.0.as_ref().map_or(true, |s| s.get().rx_dropped) }
+        pub fn is_closed(&self) -> bool {
+            self.0.as_ref().map_or(true, |s| s.get().rx_dropped)
+        }
     }
-    impl<T> Drop for Sender<T> { fn drop(&mut self) { if let Some(s) = self.0.take() { let i = s.get(); i.tx_dropped = true; if let Some(w) = i.waker.take() { w.wake(); } } } }
+    impl<T> Drop for Sender<T> {
+        fn drop(&mut self) {
+            if let Some(s) = self.0.take() {
+                let i = s.get();
+                i.tx_dropped = true;
+                if let Some(w) = i.waker.take() {
+                    w.wake();
+                }
+            }
+        }
+    }
+    impl<T> Receiver<T> {
+        pub fn try_recv(&mut self) -> Result<T, error::TryRecvError> {
+            let i = self.0.get();
+            if let Some(v) = i.v.take() {
+                return Ok(v);
+            }
+            if i.tx_dropped { Err(error::TryRecvError::Closed) } else { Err(error::TryRecvError::Empty) }
+        }
+        pub fn close(&mut self) {
+            self.0.get().rx_dropped = true;
+        }
+    }
     impl<T> Future for Receiver<T> {
         type Output = Result<T, error::RecvError>;
         fn poll(self: Pin<&mut Self>, cx: &mut Context<'_>) -> Poll<Self::Output> {
             let i = self.0.get();
-            if let Some(v) = i.v.take() { return Poll::Ready(Ok(v)); }
-            if i.tx_dropped { return Poll::Ready(Err(error::RecvError(()))); }
+            if let Some(v) = i.v.take() {
+                return Poll::Ready(Ok(v));
+            }
+            if i.tx_dropped {
+                return Poll::Ready(Err(error::RecvError(())));
+            }
             i.waker = Some(cx.waker().clone());
             Poll::Pending
         }
     }
-    impl<T> Drop for Receiver<T> { fn drop(&mut self) { let i = self.0.get(); i.rx_dropped = true; i.v = None; } }
+    impl<T> Drop for Receiver<T> {
+        fn drop(&mut self) {
+            let i = self.0.get();
+            i.rx_dropped = true;
+            i.v = None;
+        }
+    }
 }
